@@ -15,7 +15,7 @@ TEAM_KINDS = ["tuple", "None", "int", "str", "dict", "bare_rating", "empty", "us
 TEAMS_KINDS = ["tuple", "dict", "frozenset", "str", "int", "None", "generator", "len0", "len1", "userlist", "deque", "dict_values", "map"]
 SEL_NONLIST = ["int", "float", "str", "tuple", "dict", "set", "bytes", "range", "True", "array", "deque", "generator", "map", "dict_values",
                "bytearray", "memoryview", "userlist"]
-SEL_ELEM = ["str", "None", "list", "tuple", "dict", "object", "bytes", "class", "record"]
+SEL_ELEM = ["str", "None", "list", "tuple", "dict", "object", "bytes", "class", "record", "eqtwin"]
 CALLS = ["rate", "win", "draw", "rank"]
 
 
@@ -30,6 +30,24 @@ class Duck:
 
     def ordinal(self, z=3.0):
         return self.mu - z * self.sigma
+
+
+class EqTwin:
+    """Not a number, but compares and hashes equal to one (round 17, C13-59: a validation loop
+    over set(ranks) never looks at an element that equals an earlier, valid one).  Placed in a
+    selector list next to the genuine number it equals, i.e. as one half of a tie."""
+
+    def __init__(self, v):
+        self.v = v
+
+    def __eq__(self, o):
+        return o == self.v
+
+    def __hash__(self):
+        return hash(self.v)
+
+    def __repr__(self):
+        return "EqTwin(%r)" % (self.v,)
 
 
 class Record:
@@ -191,7 +209,7 @@ def _sel_nonlist(kind, n):
 
 def _sel_elem(kind):
     return {"str": "1", "None": None, "list": [1], "tuple": (1,), "dict": {1: 1}, "object": object(), "bytes": b"1", "class": float,
-            "record": Record(value=1)}[kind]
+            "record": Record(value=1), "eqtwin": EqTwin(1)}[kind]
 
 
 def undo_inplace(teams, saved):
@@ -308,7 +326,12 @@ def build_call(desc, model_name, teams):
             kw[arg] = [k + 1 for k in range(desc["len"])]
         elif kind.startswith("elem:"):
             v = [k + 1 for k in range(n)]
-            v[desc["pos"][0]] = _sel_elem(kind.split(":", 1)[1])
+            if kind == "elem:eqtwin":
+                # ties with its neighbour: the genuine number comes first wherever it can
+                i = desc["pos"][0]
+                v[i] = EqTwin(v[i - 1] if i > 0 else v[1])
+            else:
+                v[desc["pos"][0]] = _sel_elem(kind.split(":", 1)[1])
             kw[arg] = v
         else:
             raise ValueError(kind)
